@@ -168,7 +168,7 @@ func (c *Ctx) guardRule(rule string, owners []string, exc []GuardException, cont
 						p.ShortFn(x.w.Fn), p.InstrPos(x.w.Instr), x.w.Held, rw(x.a), p.ShortFn(x.a.Fn), p.InstrPos(x.a.Instr), x.a.Held))
 				}
 				pos := p.InstrPos(b.a.Instr)
-				if p.ShortFn(b.w.Fn) == fnk {
+				if p.ShortFn(b.a.Fn) != fnk {
 					pos = p.InstrPos(b.w.Instr)
 				}
 				construct := key + "@" + fnk
